@@ -1,9 +1,132 @@
 import Driver.Util
+import Lattigo.Model.Bootstrap
 
+/-!
+  C18 line protocol (all arguments `key=value`):
+
+  * `helper_rot enc= logN= logSlots= levels= repack= bitrev= bsgs=`
+        → sorted Galois elements of `dft.MatrixLiteral.GaloisElements`
+  * `lt_index enc= logN= logSlots= levels= repack= bitrev= bsgs=`
+        → per matrix of `dft.NewMatrixFromLiteral`: `N1:sorted keys of Vec`, joined by `;`
+  * `generated logN= logSlots= c2s= s2c= bsgs=`  → sorted Galois elements of the returned key set
+  * `required  logN= logSlots= c2s= s2c= bsgs=`  → sorted Galois elements requested by one `Bootstrap`
+  * `inventory q= p= eph= diff= ci= logN= logSlots= c2s= s2c= bsgs=`
+        → `name/prot/levelQ/levelP;…` (prot: letters r,d,s) or `panic`
+  * `layout res= s2c= c2s= cosd= sinc= deg= k= da= inv= rsv= logp=`
+        → `qCount,pCount,s2cLevelQ,mod1LevelQ,c2sLevelQ,mod1Depth,checks`
+  * `stages res= s2c= c2s= s2cm= c2sm= m1= rsv=` → levels after ModUp, CoeffsToSlots, EvalMod, SlotsToCoeffs
+  * `output res= s2c= c2s= s2cm= c2sm= m1= rsv= iter= logscale=` → `level,scale`
+  * `probe …` → `holds`
+-/
 namespace Driver.C18
 open Driver
+open Lattigo.Model.Bootstrap
 
-/-- stub: replaced by the property's real handler -/
-def handle (_toks : List String) : String := badOp
+def natArg (toks : List String) (k : String) : Option Nat := (kv? toks k).bind parseNat?
+def vecArg (toks : List String) (k : String) : Option (List Nat) := (kv? toks k).bind parseVec?
+def boolArg (toks : List String) (k : String) : Option Bool := (natArg toks k).map (· != 0)
+
+def matLit? (toks : List String) : Option (MatLit × Nat) := do
+  let enc ← boolArg toks "enc"
+  let logN ← natArg toks "logN"
+  let logSlots ← natArg toks "logSlots"
+  let levels ← vecArg toks "levels"
+  let repack ← boolArg toks "repack"
+  let bitrev ← boolArg toks "bitrev"
+  let bsgs ← natArg toks "bsgs"
+  pure ({ encode := enc, logSlots := logSlots, levels := levels, repack := repack,
+          bitReversed := bitrev, logBSGS := bsgs }, logN)
+
+def galLit? (toks : List String) : Option GalLit := do
+  let logN ← natArg toks "logN"
+  let logSlots ← natArg toks "logSlots"
+  let c2s ← vecArg toks "c2s"
+  let s2c ← vecArg toks "s2c"
+  let bsgs ← natArg toks "bsgs"
+  pure { logN := logN, logSlots := logSlots, c2sLevels := c2s, s2cLevels := s2c, logBSGS := bsgs }
+
+def schedLit? (toks : List String) (m1 : Nat) : Option SchedLit := do
+  let res ← natArg toks "res"
+  let s2c ← natArg toks "s2c"
+  let c2s ← natArg toks "c2s"
+  let s2cm := (natArg toks "s2cm").getD s2c
+  let c2sm := (natArg toks "c2sm").getD c2s
+  let rsv ← boolArg toks "rsv"
+  let logp := match kv? toks "logp" with
+    | some "def" => none
+    | some s => parseNat? s
+    | none => none
+  pure { residualQ := res, s2cGroups := s2c, c2sGroups := c2s, s2cMats := s2cm, c2sMats := c2sm, mod1Depth := m1, reserved := rsv, logPLen := logp }
+
+def protStr (p : List SecretKind) : String :=
+  String.join (p.map fun
+    | .residual => "r"
+    | .dense => "d"
+    | .sparse => "s")
+
+def keyStr (k : KeyRec) : String :=
+  k.name ++ "/" ++ protStr k.protectedBy ++ "/" ++ toString k.levelQ ++ "/" ++ toString k.levelP
+
+def b2s (b : Bool) : String := if b then "1" else "0"
+
+def handle (toks : List String) : String :=
+  match toks with
+  | "probe" :: _ => "holds"
+  | "helper_rot" :: rest =>
+    match matLit? rest with
+    | some (d, logN) => showVec (sortL (dedupL ((helperRotations d logN).map (galEl logN))))
+    | none => badOp
+  | "lt_index" :: rest =>
+    match matLit? rest with
+    | some (d, logN) =>
+      let cols := 2 ^ d.logdSlots logN
+      let ms := (genMatricesIndex d logN).map fun diags =>
+        let n1 := findBestBSGSRatio diags cols d.logBSGS
+        toString n1 ++ ":" ++ showVec (sortL (ltVecKeys diags cols n1))
+      if ms.isEmpty then "-" else ";".intercalate ms
+    | none => badOp
+  | "generated" :: rest =>
+    match galLit? rest with
+    | some g => showVec (sortL (generatedGalois g))
+    | none => badOp
+  | "required" :: rest =>
+    match galLit? rest with
+    | some g => showVec (sortL (requiredGalois g))
+    | none => badOp
+  | "inventory" :: rest =>
+    match galLit? rest, natArg rest "q", natArg rest "p", boolArg rest "eph", boolArg rest "diff", boolArg rest "ci" with
+    | some g, some q, some p, some eph, some diff, some ci =>
+      match genEvaluationKeys { qCount := q, pCount := p, ephemeral := eph, ringDiffers := diff, conjInv := ci }
+              (generatedGalois g) with
+      | some ks => ";".intercalate (ks.map keyStr)
+      | none => "panic"
+    | _, _, _, _, _, _ => badOp
+  | "layout" :: rest =>
+    match boolArg rest "cosd", boolArg rest "sinc", natArg rest "deg", natArg rest "k", natArg rest "da", natArg rest "inv" with
+    | some cosd, some sinc, some deg, some k, some da, some inv =>
+      let m1 := mod1Depth cosd sinc deg k da inv
+      match schedLit? rest m1 with
+      | some s => showVec [s.qCount, s.pCount, s.s2cLevelQ, s.mod1LevelQ, s.c2sLevelQ, m1, if s.newEvaluatorChecks then 1 else 0]
+      | none => badOp
+    | _, _, _, _, _, _ => badOp
+  | "stages" :: rest =>
+    match natArg rest "m1" with
+    | some m1 =>
+      match schedLit? rest m1 with
+      | some s => match s.stages with
+        | .ok v => showVec v
+        | .error e => e
+      | none => badOp
+    | none => badOp
+  | "output" :: rest =>
+    match natArg rest "m1", boolArg rest "iter", natArg rest "logscale" with
+    | some m1, some iter, some ls =>
+      match schedLit? rest m1 with
+      | some s => match s.outputLevel iter with
+        | some l => showVec [l, 2 ^ ls]
+        | none => "err"
+      | none => badOp
+    | _, _, _ => badOp
+  | _ => badOp
 
 end Driver.C18
